@@ -271,6 +271,10 @@ func (s *Sys) deliverAck(src *world.Chain, signer world.Account, msgs []sdk.Msg,
 	}
 	if t.AckBytes != nil && fieldsOf(indepAck, am.Acknowledgement) != fieldsOf(indepAck, t.AckBytes) {
 		add("C02", "ack-accepted-with-bytes-differing-from-the-stored-acknowledgement", fmt.Sprintf("ack %s on %s: message carries %s, the counterparty wrote %s", what, short[src.Name], fieldsOf(indepAck, am.Acknowledgement), fieldsOf(indepAck, t.AckBytes)))
+		add("C05", "outcome-recorded-from-an-acknowledgement-the-destination-never-wrote", fmt.Sprintf("ack %s on %s: message carries %s, the counterparty wrote %s", what, short[src.Name], fieldsOf(indepAck, am.Acknowledgement), fieldsOf(indepAck, t.AckBytes)))
+	}
+	if t.AckBytes == nil {
+		add("C05", "outcome-recorded-from-an-acknowledgement-the-destination-never-wrote", fmt.Sprintf("ack %s on %s: message carries %s, the counterparty has not written any acknowledgement for this packet", what, short[src.Name], fieldsOf(indepAck, am.Acknowledgement)))
 	}
 	// the commitment existed, matched exactly the message's packet, and is gone now
 	canon, _ := p.ABIPack()
